@@ -1,3 +1,3 @@
 From Coq Require Import extraction.ExtrOcamlBasic.
-From DS Require Import CpcDefs.
-Extraction "model_cpc.ml" CpcDefs.run.
+From DS Require Import CpcRun.
+Extraction "model_cpc.ml" CpcRun.run.
